@@ -133,6 +133,20 @@ def datatype_contracts(tier, seed):
                 t0 = np.array(tgt)
                 r = np.add(a, b, out=tgt)
                 check(f'{tag}:out_argument_dropped', np.array_equal(tgt, t0) and np.allclose(r, a0 + b0) and type(r) is cls)
+                # ... nor into a plain array another name refers to, as soon as a mesh takes part (explicit out= and augmented assignment with the array on the left)
+                arr = np.array(rand(cls, shape, dt))
+                arr0, alias = arr.copy(), arr
+                r = np.add(a, b, out=arr)
+                check(f'{tag}:out_argument_dropped_for_plain_array_targets', np.array_equal(alias, arr0) and np.allclose(r, a0 + b0) and type(r) is cls)
+                for nm, aug in (('iadd', lambda x, y: x.__iadd__(y)), ('isub', lambda x, y: x.__isub__(y)), ('imul', lambda x, y: x.__imul__(y))):
+                    arr = np.array(rand(cls, shape, dt))
+                    arr0, alias = arr.copy(), arr
+                    try:
+                        c = aug(arr, b)
+                    except Exception as e:
+                        check(f'{tag}:array_{nm}_mesh:runs', False, repr(e)[:120])
+                        continue
+                    check(f'{tag}:array_{nm}_mesh:array_operand_unchanged_result_is_a_new_mesh', np.array_equal(alias, arr0) and type(c) is cls and not np.shares_memory(c, alias))
                 # copy construction: independent storage, equal values
                 c = cls(a)
                 check(f'{tag}:copy:equal_independent', np.array_equal(c, a0) and not np.shares_memory(c, a) and type(c) is cls)
